@@ -278,6 +278,7 @@ func main() {
 	k := flag.Int("k", 2, "concrete instances per abstract case")
 	flatAll := flag.Bool("flat", false, "-frames: write the abstract frame of every line, not only of rejected ones")
 	tmp := flag.String("tmp", os.TempDir(), "directory for lease files")
+	sendconc := flag.Bool("sendconc", false, "concurrent send stage after the error-path vector (-par goroutines, -dur seconds)")
 	selftest := flag.Bool("selftest", false, "check the reference decoder against frames of the independent builders")
 	flag.Parse()
 	seed, _ := strconv.ParseInt(os.Getenv("VERIF_SEED"), 10, 64)
@@ -295,6 +296,8 @@ func main() {
 		os.Exit(2)
 	}
 	switch {
+	case *sendconc:
+		sendConcMode(*out, *par, time.Duration(*dur*float64(time.Second)), seed, *tmp)
 	case *conc != "":
 		concurrentMode(readVectors(*conc), *out, *par, time.Duration(*dur*float64(time.Second)), seed)
 	case *build != "":
